@@ -10,6 +10,10 @@ def extras(tier):
                 for pb in (False, True):
                     for j in range(1 if tier == "quick" else 4):
                         out.append(dict(kind="sysplain", lkind=lk, net=net, pbatch=pb, seed=10 * seed + j, src="sysplain"))
+        # a MIXED system (stationary unknown + non-stationary unknown with an initial condition), the stationary key sorting first / last
+        for net in ("kfirst", "klast"):
+            for j in range(2 if tier == "quick" else 6):
+                out.append(dict(kind="sysplain", lkind="mixed", net=net, pbatch=False, seed=10 * seed + j, src="sysmixed"))
         return out
     return gen
 
